@@ -769,6 +769,66 @@ def rule_iter_stable(db, chk, cfg, e2eng_factory, rule="ITER.stable"):
     return n
 
 
+def rule_bound_live(db, chk, cfg, e2eng_factory, rule="LOOP.bound-live"):
+    """An index loop `for (i = 0; i < M.size(); ++i) .. M[i] ..` over a member container whose body - through any callee - can append to
+    M visits the elements appended on the way only if the bound is read afresh in every iteration.  (The output builders rely on it:
+    CleanCollinear can split a ring and append the new OutRec to outrec_list_ while the solution is being built.)  Every such loop:
+    the condition itself mentions M.size(), not a value cached before the loop.  May-modify sets from the E2 summaries."""
+    GROW = ("emplace_back", "push_back", "insert", "resize", "emplace")
+    n = 0
+    for cls in (["ClipperBase", "Clipper64"], ["ClipperBase", "ClipperD"]):
+        eng = e2eng_factory(cls)
+        for f in db.funcs:
+            if f.body is None or f.is_pattern or f.cls not in cls:
+                continue
+            for lp in walk(f.body):
+                if lp.get("kind") != "ForStmt":
+                    continue
+                ks = kids(lp)
+                body = ks[-1]
+                cond = ks[2] if len(ks) >= 4 else None
+                if not isinstance(cond, dict) or not cond.get("kind"):
+                    continue
+                # the member indexed with the loop's counter
+                member = None
+                idx = None
+                for y in walk(body):
+                    if y.get("kind") == "CXXOperatorCallExpr" and db.callee(y)[0] == "operator[]" and len(kids(y)) == 3:
+                        b = _u(kids(y)[1])
+                        i0 = _u(kids(y)[2])
+                        if b.get("kind") == "MemberExpr" and (not kids(b) or _u(kids(b)[0]).get("kind") == "CXXThisExpr") and b.get("name") in eng.fields \
+                                and i0.get("kind") == "DeclRefExpr" and re.search(r"(?<![\w])%s(?![\w])" % re.escape(i0["referencedDecl"].get("name", "?")), canon(cond)):
+                            member, idx = b.get("name"), i0["referencedDecl"].get("name")
+                            break
+                if member is None:
+                    continue
+                mods = []
+                for y in walk(body):
+                    if y.get("kind") == "CXXMemberCallExpr":
+                        base = db.member_base(y)
+                        if base is not None and canon(base) == member and db.callee(y)[0] in GROW:
+                            mods.append(y)
+                    if y.get("kind") in ("CallExpr", "CXXMemberCallExpr"):
+                        g = db.callee_func(y)
+                        if g is not None and g.body is not None and g.cls in cls + [None]:
+                            try:
+                                sm = eng.summary(g, {}, {}, True)
+                            except AnalysisBroken:
+                                continue
+                            if member in sm.may_def or member in sm.may_dirty:
+                                mods.append(y)
+                if not mods:
+                    continue
+                n += 1
+                live = ("%s.size()" % member) in canon(cond)
+                chk.instance(rule, {"function": f.qual, "loop_over": member, "condition": canon(cond)[:50], "body_may_grow_it_through": canon(mods[0])[:40], "cfg": cfg}, ok=live)
+                if not live:
+                    chk.violation(rule, f.qual, "%s|%s" % (member, idx), "the loop at %s indexes `%s[%s]` under the condition `%s`, which does not read %s.size() afresh, "
+                                  "while `%s` in its body can append to that container: the elements appended during the loop (rings split off "
+                                  "while the solution is built) are never visited" % (where(lp), member, idx, canon(cond)[:50], member, canon(mods[0])[:50]), where(lp), cfg=cfg)
+    return n
+
+
 # ---------------------------------------------------------------------------
 # OPEN.flag: the builders are told the truth about open / closed (C05, C03)
 # ---------------------------------------------------------------------------
